@@ -182,6 +182,10 @@ def _sequence_task(task):
     return acc
 
 
+def _heavy(t):
+    return {"rare": _rare_task, "pat": _pattern_task, "ship": _shipped_task}[t[0]](t[1])
+
+
 def _any_task(t):
     return _sequence_task(t[1]) if t[0] == "seq" else _small_task(t[1])
 
@@ -463,19 +467,18 @@ def run(tier, seed):
             for pw in [b"q" * n for n in ((256, 257, 1025) if quick else (31, 32, 33, 63, 64, 65, 127, 128, 129, 255, 256, 257, 300, 1024, 1025, 5000))]:
                 stasks.append((name, side, pw, xs[2:3], tier, seed))
     stasks.sort(key=lambda t: -T.get(t[0]).ref.esize)
-    core.pmerge(_shipped_task, stasks, acc)
+    C.prepare_patterns(T.SHIPPED, "ABS", b"password", 0 if quick else 1)
     ptasks = []
     for name in T.SHIPPED:
         if T.try_get(name)[0] is None:
             continue
-        np_ = {"ParamsEd25519": 6, "Params1024": 6, "Params2048": 10, "Params3072": 16}[name] * (1 if quick else 4)
+        np_ = {"ParamsEd25519": 12, "Params1024": 6, "Params2048": 16, "Params3072": 32}[name] * (1 if quick else 3)
         for side in "ABS":
             for part in range(np_):
                 ptasks.append((name, side, 0 if quick else 1, part, np_))
     ptasks.sort(key=lambda t: -T.get(t[0]).ref.esize)
-    C.prepare_patterns(T.SHIPPED, "ABS", b"password", 0 if quick else 1)
-    core.pmerge(_pattern_task, ptasks, acc)
-    core.pmerge(_rare_task, [(n, s) for n in reversed(T.SHIPPED) for s in "ABS"], acc)
+    heavy = [("rare", (n, s_)) for n in reversed(T.SHIPPED) for s_ in "ABS"] + [("pat", t) for t in ptasks] + [("ship", t) for t in stasks]
+    core.pmerge(_heavy, heavy, acc)
     _golden(acc)
     _default_path(acc)
     return acc
